@@ -71,15 +71,19 @@ def bounds(tier, seed):
 
 def judge(res, sig, what, d, base, call, sc_cols, req_cols, one, expect_refusal):
     """sc_cols: list of original columns the curves are for (curve i belongs to column sc_cols[i]); req_cols: requested columns"""
+    either = expect_refusal == 'EITHER'          # refusing is fine, converting correctly is fine, passing data through is not
     try:
         t = call()
     except Exception as e:
+        if either:
+            res.ok('refused-or-converted', True)
+            return
         if expect_refusal:
             res.ok('refused', True)
         else:
             res.violation(sig + ':raises:%s' % type(e).__name__, '%s raised %s: %s' % (what, type(e).__name__, e), one)
         return
-    if expect_refusal:
+    if expect_refusal and not either:
         res.violation(sig + ':not-refused', '%s returned data although %s' % (what, expect_refusal), one)
         return
     a = np.asarray(t)
@@ -158,6 +162,20 @@ def run_case(c):
                     one = dict(c)
                     judge(res, 'sample', what, d, base, lambda: to_mef(d, req, scl, scch), SC, rc, one,
                           'channel(s) %r have no curve' % unc if unc else None)
+                # the request and the curve list spell a channel with different sign conventions (position counted from the last
+                # channel): matched or refused, never handed back unconverted
+                for j in range(4):
+                    for req in (j - 4, [j - 4], [j - 4, SC[0]]):
+                        rc = [j] if not isinstance(req, list) or len(req) == 1 else [j, SC[0]]
+                        unc = [x for x in rc if x not in SC]
+                        judge(res, 'sample-neg', 'to_mef(sample, channels=%r, curves for %r, sc_channels=%r)' % (req, SC, scch), d, base,
+                              lambda: to_mef(d, req, scl, scch), SC, rc, dict(c), 'channel(s) %r have no curve' % unc if unc else 'EITHER')
+                negsc = [x - 4 for x in SC]
+                for req, cols in requests('quick')[:12]:
+                    rc = list(SC) if cols is None else cols
+                    unc = [x for x in rc if x not in SC]
+                    judge(res, 'sample-neg', 'to_mef(sample, channels=%r, curves for %r, sc_channels=%r)' % (req, SC, negsc), d, base,
+                          lambda: to_mef(d, req, scl, negsc), SC, rc, dict(c), 'channel(s) %r have no curve' % unc if unc else 'EITHER')
                 # unequal numbers of curves and channels
                 for wrong in (scl[:-1], scl + [curve(0)]):
                     judge(res, 'sample', 'to_mef(sample, %r, %d curves, sc_channels=%r)' % (scch[:1], len(wrong), scch), d, base,
@@ -206,6 +224,20 @@ def run_case(c):
                                     break
                             if okl:
                                 res.ok('layouts:converted', True)
+            # a calibration covering a channel that the sample does not have (in any position of the curve list) is refused
+            sub = d[:, ['CH4', 'CH2', 'CH3']]
+            sbase = np.array(sub.view(np.ndarray))
+            for SC in ([0, 2], [2, 0], [1, 0, 3], [0, 1, 2, 3], [3, 0], [0]):
+                scn = [NAMES[j] for j in SC]
+                scl = [curve(j) for j in SC]
+                for req in (None, 'CH3', ['CH4'], ['CH2', 'CH3']):
+                    what = 'to_mef(sample with channels %r, channels=%r, curves for %r)' % (list(sub.channels), req, scn)
+                    try:
+                        t = to_mef(sub, req, scl, scn)
+                    except Exception:
+                        res.ok('layouts:missing-channel-refused', True)
+                        continue
+                    res.violation('layouts:missing-channel-accepted', '%s returned data although the curve list names CH1, which the sample does not have' % what, dict(c))
             res.sample({'layouts': [s_[0] for s_ in samples], 'sc_channels': 'by name'})
         elif c['kind'] == 'array':
             arr = base.copy()
